@@ -8,15 +8,23 @@ LEVEL = "model_checking"
 
 
 def run(ck):
-    conslib.design_check(ck, "C07")
+    quick = ck.tier == "quick"
+    # (D) the clauses as invariants / action property of the implementation-shaped model (simulation), nested inputs (clauses 5/6) and forks (7/8)
+    hists = conslib.permsg_design(ck, "c07n", "nest3", 100 if quick else 3000, maxround=2)
+    hists2 = conslib.permsg_design(ck, "c07f", "nest", 100 if quick else 3000, maxround=2, rank="RankRev")
     plan = [("random", 24), ("uniform", 4), ("gst", 6)] if ck.tier == "quick" else [("random", 250), ("uniform", 30), ("gst", 60)]
     seeds = [ck.seed] if ck.tier == "quick" else [ck.seed, ck.seed + 1000]
     traces, st = conslib.run_layers(ck, plan, ["C07_"], seeds=seeds)
+    # (R-conf) schedules chosen by TLC replayed on the real participants: Layer A clauses + step-by-step conformance (Layer B)
+    if not ck.violations:
+        conslib.replay_conformance(ck, ck.binary, "nest3", hists[: (50 if quick else 1500)], ["C07_"], tag="rconfn")
+    if not ck.violations:
+        conslib.replay_conformance(ck, ck.binary, "nest", hists2[: (50 if quick else 1500)], ["C07_"], tag="rconff")
     a = ck.cov["antecedents"]
     for need in ("converge_prepares", "commit_bottom", "byz_deliveries", "decisions", "two_instance_runs"):
         if not a.get(need):
             raise Inconclusive("vacuous run: antecedent %s never occurred" % need)
-    ck.cov["distinct_nontrivial"] = a["runs"]
+    ck.cov["distinct_nontrivial"] = a["runs"] + ck.cov.get("replayed_tlc_schedules", 0)
     ck.cov["rule"] = ("runs = seeded scenarios (6 power tables incl. a zero-scaled member, Byzantine sets < 1/3 with an adaptive forger using only observed signatures, "
                       "nested/forked inputs, delay/loss/duplication/staggered starts, 1-2 instances, partial synchrony) on real participants; every Start/Receive/Alarm is one event; "
                       "each clause of C07 is evaluated by TLC on every emitted vote / step")
